@@ -3,6 +3,7 @@ import json
 import re
 import random
 from ..suites import construct as S
+from ..suites import extras as X
 
 ID = "C01"
 SUITE = "construct"
@@ -20,10 +21,15 @@ RULE = ("classes from the type-directed declaration generator; kwargs streams va
         "keep_undefined, shallow_clone_with_overrides / from_other_class(instance|mapping) with an extra name, assignment of a new "
         "attribute, copy/deepcopy/clone/cast_to chain; the Undefined sentinel given for a required field; keyword / document / mapping "
         "names equal to the library's per-instance bookkeeping flags next to invalid values; a cross-field __validate__ hook stated on the base, "
-        "through constructor / clone / from_other_class / mapping / Deserializer / cast_to from a subclass with a looser hook / a copy chain); the declaration is checked on the returned instance in Python")
+        "through constructor / clone / from_other_class / mapping / Deserializer / cast_to from a subclass with a looser hook / a copy chain); the declaration is checked on the returned instance in Python; "
+        "plus (round 5) the same type-directed streams with the EXTENDED declaration generator (SizedString, IPV4, HostName, DateString, TimeString, JSONString at every "
+        "position a scalar can occupy; directed pools of valid / near-valid strings bare and inside 12 container positions), a TRANSPLANT stream (every collection among the "
+        "arguments is first stored in a laxly declared field of another instance and read back: the library's own typed wrappers as arguments), a DECIMAL stream (DecimalNumber "
+        "bare / Array items / Map values x every accepted input type and spelling), chains through the DESERIALIZER (JSON images and single-point corruptions under every flag "
+        "setting, serialize-then-deserialize) and an oracle-only NESTED-HOOK stream (a hooked class at 7 nested positions x 10 entry kinds)")
 ASSUMPTIONS = [
     "trusted entry points (from_trusted_data, trust_supplied_values, direct_trusted_mapping) are excluded by the statement",
-    "Deserializer as an entry point is covered by C05/C06's suites, not here",
+    "Deserializer as an entry point: the chain theorems cover every document; the correspondence drives it on classes of the serializable fragment (C05/C06 tie the Deser model elsewhere)",
     "instances passed as nested ClassReference arguments are themselves products of the real constructor",
 ]
 
@@ -167,6 +173,85 @@ def run_inherit(case):
     return {"out": "instance", "problems": problems, "inst": str(x)[:200]}
 
 
+# ---- __validate__ hooks of NESTED classes (oracle-only: the model's hook oracle speaks about the top class): every entry
+# point that BUILDS a nested instance (the Deserializer at every position, from_other_class of a mapping) must have run
+# the nested class's hook; the ones that pass an instance on must not lose it
+NESTED_POS = ["field", "array", "map", "optional", "tuple", "deep", "set-of-tuples-no", "anyof-second"]
+NESTED_ENTRIES = ["deser-bad", "deser-good", "deser-bad-inherited-hook", "ctor-dict-bad", "ctor-good", "clone-override-good", "chain-good",
+                  "from-mapping-bad", "deser-bad-keep-undefined", "deser-bad-second-item"]
+
+
+def nestedhook_cases():
+    return [{"suite": "nestedhook", "pos": p, "entry": e} for p in NESTED_POS if "-no" not in p for e in NESTED_ENTRIES]
+
+
+def run_nestedhook(case):
+    import copy
+    import pickle
+    from typedpy import Structure, Integer, String, Array, Map, Tuple, AnyOf, NoneField, Deserializer
+
+    def __validate__(self):
+        if self.lo is not None and self.hi is not None and self.lo > self.hi:
+            raise ValueError("lo must not exceed hi")
+    base = type("Range0", (Structure,), {"lo": Integer(), "hi": Integer(), "_required": ["lo", "hi"], "__validate__": __validate__})
+    inner = type("Range", (base,), {"tag": String(), "_required": []}) if "inherited" in case["entry"] else base
+    pos = case["pos"]
+    fld = {"field": lambda: inner, "array": lambda: Array[inner], "map": lambda: Map[String(), inner], "optional": lambda: AnyOf[inner, NoneField()],
+           "tuple": lambda: Tuple[inner, Integer()], "deep": lambda: Array[Map[String(), Array[inner]]], "anyof-second": lambda: AnyOf[Integer(), inner]}[pos]()
+    try:
+        outer = type("Outer", (Structure,), {"f": fld, "n": Integer(), "_required": ["f"]})
+    except Exception as e:
+        return {"skip": f"definition: {type(e).__name__}: {e}"[:200]}
+    good, bad = {"lo": 1, "hi": 2}, {"lo": 2, "hi": 1}
+    wrap_doc = {"field": lambda d: d, "array": lambda d: [good, d], "map": lambda d: {"k": d}, "optional": lambda d: d, "tuple": lambda d: [d, 3],
+                "deep": lambda d: [{"a": [good, d]}], "anyof-second": lambda d: d}[pos]
+    wrap_val = {"field": lambda v: v, "array": lambda v: [v], "map": lambda v: {"k": v}, "optional": lambda v: v, "tuple": lambda v: (v, 3),
+                "deep": lambda v: [{"a": [v]}], "anyof-second": lambda v: v}[pos]
+    entry = case["entry"]
+    try:
+        if entry in ("deser-bad", "deser-bad-inherited-hook"):
+            x = Deserializer(outer).deserialize({"f": wrap_doc(bad), "n": 1})
+        elif entry == "deser-bad-keep-undefined":
+            x = Deserializer(outer).deserialize({"f": wrap_doc(dict(bad, zz=1)), "n": 1, "zz": 2}, keep_undefined=True)
+        elif entry == "deser-bad-second-item":
+            x = Deserializer(outer).deserialize({"f": wrap_doc(bad), "n": 0})
+        elif entry == "deser-good":
+            x = Deserializer(outer).deserialize({"f": wrap_doc(good), "n": 1})
+        elif entry == "ctor-dict-bad":
+            x = outer(f=wrap_val(bad), n=1)          # a plain dict where an instance is expected: must be refused (or built through the hook)
+        elif entry == "ctor-good":
+            x = outer(f=wrap_val(inner(**good)), n=1)
+        elif entry == "clone-override-good":
+            x = outer(f=wrap_val(inner(**good)), n=1).shallow_clone_with_overrides(f=wrap_val(inner(lo=0, hi=0)))
+        elif entry == "chain-good":
+            x = copy.copy(copy.deepcopy(outer(f=wrap_val(inner(**good)), n=1))).shallow_clone_with_overrides(n=2).cast_to(outer)   # (classes made with type() cannot be pickled by name)
+        elif entry == "from-mapping-bad":
+            x = outer.from_other_class({"f": wrap_val(bad), "n": 1})
+        else:
+            raise AssertionError(entry)
+    except Exception as e:
+        return {"out": "raised", "exc": type(e).__name__, "documented_exc": isinstance(e, (TypeError, ValueError)), "msg": str(e)[:160]}
+    problems = []
+
+    def walk(v, path):
+        if isinstance(v, Structure):
+            d = {k: w for k, w in v.__dict__.items() if not k.startswith("_")}
+            if isinstance(v, base) and d.get("lo") is not None and d.get("hi") is not None and d["lo"] > d["hi"]:
+                problems.append(f"{path}: nested {type(v).__name__}(lo={d['lo']}, hi={d['hi']}) is rejected by its own __validate__ hook")
+            for k, w in d.items():
+                walk(w, f"{path}.{k}")
+        elif isinstance(v, dict):
+            if "lo" in v and "hi" in v and not isinstance(v, Structure):
+                problems.append(f"{path}: holds a plain dict {dict(v)!r} where the declaration says {inner.__name__}")
+            for k, w in v.items():
+                walk(w, f"{path}[{k!r}]")
+        elif isinstance(v, (list, tuple, set, frozenset)):
+            for i, w in enumerate(v):
+                walk(w, f"{path}[{i}]")
+    walk(x, "x")
+    return {"out": "instance", "problems": problems, "inst": str(x)[:200]}
+
+
 def cases(rng, tier):
     base = S.gen_cases(rng, tier, 90 if tier == "quick" else 1200) + S.default_cases(random.Random(str(rng.getstate()[1][0])), tier, 150 if tier == "quick" else 2500) + S.crosstype_cases() + S.hook_cases(random.Random("hook" + str(rng.getstate()[1][0])), tier, 120 if tier == "quick" else 2000) + inherit_cases(rng, 150 if tier == "quick" else 3000)
     # the extension field kinds (SizedString, IPV4, HostName, DateString, TimeString, JSONString) inside the modelled region:
@@ -176,7 +261,11 @@ def cases(rng, tier):
     tp = S.transplant_cases(random.Random("tp" + str(rng.getstate()[1][0])), tier, 60 if tier == "quick" else 800)
     # DecimalNumber (Sem/Decimal.lean): bare, Array items, Map values
     dec = S.decimal_cases(random.Random("dec" + str(rng.getstate()[1][0])), tier, 40 if tier == "quick" else 500)
-    return base + ext + tp + dec
+    # the Deserializer as an entry point of the chain (Sem/EntryD.lean)
+    dz = S.deser_chain_cases(random.Random("dz" + str(rng.getstate()[1][0])), tier, 150 if tier == "quick" else 2500)
+    # the element-wise oracle of C02's extras stream, in C01's direction: a leaf value the BARE field rejects must not be
+    # accepted at a nested position (oracle-only kinds: enums by value, date / datetime fields, bounded DecimalNumber ...)
+    return base + ext + tp + dec + dz + nestedhook_cases() + X.directed_ctor_cases()
 
 
 def search_cases(rng, tier):
@@ -186,10 +275,22 @@ def search_cases(rng, tier):
 
 
 def _i(case):
-    return case.get("suite") == "inherit"
+    return case.get("suite") in ("inherit", "nestedhook", "extras-ctor")
+
+
+def _xc(case):
+    return case.get("suite") == "extras-ctor"
+
+
+def _nh(case):
+    return case.get("suite") == "nestedhook"
 
 
 def run_impl(case):
+    if _xc(case):
+        return X.run_ctor(case)
+    if _nh(case):
+        return run_nestedhook(case)
     return run_inherit(case) if _i(case) else S.run_impl(case)
 
 
@@ -198,6 +299,10 @@ def line(case, impl):
 
 
 def tags(case, impl, model):
+    if _xc(case):
+        return ["stream:extras-ctor", "extras:" + impl.get("out", "skipped")]
+    if _nh(case):
+        return ["stream:nestedhook", f"nestedhook:{case['entry']}:{impl.get('out', 'skipped')}"]
     if _i(case):
         return ["stream:inherit", f"inherit:{case['entry']}:{impl.get('out', 'skipped')}"]
     return S.tags(case, impl, model)
@@ -208,10 +313,21 @@ def nontrivial(case):
 
 
 def describe(case, impl, model):
-    return {"inherit": case, "result": impl} if _i(case) else S.describe(case, impl, model)
+    return {case.get("suite"): case, "result": impl} if _i(case) else S.describe(case, impl, model)
 
 
 def judge(case, impl, model):
+    if _xc(case):
+        return None, [f for f in X.judge_ctor(case, impl) if f[0].startswith("extras:element-not-validated")]
+    if _nh(case):
+        fails = []
+        for pr in impl.get("problems", []):
+            fails.append((f"ill-formed-instance:nested-hook:{case['entry']}:{case['pos']}", f"{case['entry']} with the nested class at position {case['pos']} returned {impl.get('inst')}: {pr}"))
+        if impl.get("out") == "raised" and not impl.get("documented_exc"):
+            fails.append((f"error-class:nested-hook:{case['entry']}:{impl['exc']}", f"{case['entry']} ({case['pos']}) raised {impl['exc']}: {impl.get('msg')}"))
+        if impl.get("out") == "raised" and "good" in case["entry"]:
+            fails.append((f"rejects-valid:nested-hook:{case['entry']}:{case['pos']}", f"{case['entry']} ({case['pos']}) raised {impl['exc']}: {impl.get('msg')}"))
+        return None, fails
     if _i(case):
         fails = []
         for pr in impl.get("problems", []):
@@ -225,6 +341,15 @@ def judge(case, impl, model):
     dev = S.deviation_findings(case, impl, "ill-formed-instance", None)        # the library's bare formatted-string field vs the documented language
     msg = S.correspondence(case, impl, model) or S.chain_correspondence(case, impl, model)
     fails = list(dev)
+    ch = impl.get("chain") or {}
+    if "err" in ch and ch.get("applied") and ch["applied"][-1]["op"] in ("copy", "deepcopy", "pickle") and "ok" in (model.get("chainRes") or {}):
+        # a plain copy of a VALID instance raised: the stored value is not accepted by its own field any more
+        head = str(ch.get("msg", "")).split(":")[0]
+        fld = max((fd for nm, fd in case["cls"]["fields"] if head == nm or head.startswith(nm + "_")), key=lambda fd: len(json.dumps(fd)), default=None)
+        js = json.dumps(fld if fld is not None else case["cls"])
+        site = next((k for k in ("oneOf", "allOf") if f'"{k}"' in js), "other")
+        fails.append((f"copy-raises:{ch['applied'][-1]['op']}:{site}", f"{ch['applied'][-1]['op']} of the valid instance {json.dumps(impl.get('ok'))[:200]} raised {ch['err']}: {ch.get('msg')}"))
+        msg = None
     if "unbuildable" in impl or "abstraction_mismatch" in impl:
         return msg, fails
     kind = S.top_kind(case)
